@@ -11,7 +11,18 @@ the write side (ConfigObject::DumpObjects) and on the read side (ConfigObject::R
                                 the network decoder (Facts_c20.f_js_max_depth); false = with JsonDecodeTrusted(message)
                                 (no nesting limit; proposed fix repo_patches/c14-state-depth.diff)
    * f_ps_encode_depth_limited  false = JsonEncode has no nesting limit (DumpObjects writes any depth)
-A fact that is no longer recognised is emitted as None: the lemmas over it stop checking."""
+   * f_ps_remember_contains     how ConfigObject::ModifyAttribute decides that an original value is "already remembered":
+                                true = every original_attributes->Set(key, ..) (directly or in a helper it passes
+                                original_attributes to) is guarded by !..->Contains(key); false = some guard tests the
+                                remembered VALUE (..->Get(key).IsEmpty() and the like: a remembered null or "" then looks
+                                like "nothing remembered"); None = shape not recognised (the correspondence run decides)
+   * f_ps_remember_sites        number of guarded Set sites found (4 as pinned: top-level, nested leaf, per key of an old
+                                dictionary, per key of a new dictionary)
+   * f_ps_ident_regex_nonempty  ConfigWriter::EmitIdentifier writes a key bare iff boost::regex_match with a regex whose first
+                                atom is a character class WITHOUT * or ? (at least one character, so never the empty key):
+                                true; a recognised regex that matches the empty string: false; anything else (a hand-written
+                                loop ..): None - the correspondence run (empty keys in every dma family) decides
+A fact that is no longer recognised is emitted as None: the lemmas over it stop checking (or, where stated, tolerate None)."""
 import re
 
 
@@ -136,4 +147,61 @@ def run(rd, emit, log, enum_values, ti_default):
     if enc == 'None': log.append('C14: JsonEncode nesting behaviour not recognised')
     body += '(* false = JsonEncode has no nesting limit *)\n'
     body += 'Definition f_ps_encode_depth_limited : option bool := %s.\n' % enc
+    # ---- ModifyAttribute: the test that decides "already remembered"
+    cw = _strip(rd('lib/base/configwriter.cpp'))
+    mb = _fn_body(co, r'void\s+ConfigObject::ModifyAttribute\s*\(')
+    rem, sites = None, 0
+    if mb is not None:
+        verdicts = []
+
+        def judge(body, var):
+            """verdicts for every <var>->Set(key, ..) in body: 'contains' / 'value' / '?'"""
+            out = []
+            for m in re.finditer(re.escape(var) + r'\s*->\s*Set\s*\(\s*([^,]+),', body):
+                key = m.group(1).strip()
+                pre = body[max(0, m.start() - 200):m.start()]
+                # the closest preceding `if (...)`
+                ifs = list(re.finditer(r'if\s*\((.*?)\)\s*(?:\{|\n|return\b[^;]*;)', pre, re.S))
+                cond = ifs[-1].group(1) if ifs else ''
+                tail = pre[ifs[-1].end():] if ifs else 'x'
+                # between the test and the Set: nothing that closes the guarded block or touches the dictionary again
+                near = ('}' not in tail and not re.search(r'\b' + re.escape(var) + r'\s*->', tail)) if ifs else False
+                if ifs and re.search(r'!\s*' + re.escape(var) + r'\s*->\s*Contains\s*\(\s*' + re.escape(key) + r'\s*\)', cond) and near:
+                    out.append('contains')
+                elif ifs and re.search(re.escape(var) + r'\s*->\s*Get\s*\(', cond):
+                    out.append('value')
+                else:
+                    out.append('?')
+            return out
+        verdicts += judge(mb, 'original_attributes')
+        # helpers that receive original_attributes
+        for hn in sorted(set(re.findall(r'\b(\w+)\s*\(\s*original_attributes\s*,', mb)) - {'SetOriginalAttributes'}):
+            hm = re.search(r'\b' + re.escape(hn) + r'\s*\(\s*const\s+Dictionary::Ptr\s*&\s*(\w+)', co)
+            hb = _fn_body(co, r'\b' + re.escape(hn) + r'\s*\(\s*const\s+Dictionary::Ptr\s*&') if hm else None
+            if hb is None:
+                verdicts.append('?')
+                continue
+            hv = judge(hb, hm.group(1))
+            calls = len(re.findall(r'\b' + re.escape(hn) + r'\s*\(\s*original_attributes\s*,', mb))
+            verdicts += (hv or ['?']) * calls
+        sites = sum(1 for v in verdicts if v == 'contains')
+        if verdicts and any(v == 'value' for v in verdicts): rem = 'false'
+        elif verdicts and all(v == 'contains' for v in verdicts): rem = 'true'
+    if rem is None: log.append('C14: the "already remembered" test of ModifyAttribute not recognised')
+    body += '(* ModifyAttribute: true = every original_attributes->Set is guarded by !Contains(key); false = a guard tests the remembered value *)\n'
+    body += 'Definition f_ps_remember_contains : option bool := %s.\n' % ('Some ' + rem if rem else 'None')
+    body += 'Definition f_ps_remember_sites : Z := %d.\n' % sites
+    # ---- EmitIdentifier: can the empty string be written as a bare word
+    eb = _fn_body(cw, r'void\s+ConfigWriter::EmitIdentifier\s*\(')
+    ne = None
+    if eb is not None:
+        m = re.search(r'boost::regex\s+expr\s*\(\s*"((?:[^"\\]|\\.)*)"\s*\)', eb)
+        if m and re.search(r'boost::regex_match\s*\(\s*identifier\.GetData\(\)\s*,\s*what\s*,\s*expr\s*\)', eb):
+            rx = m.group(1)
+            m2 = re.match(r'\^?(\[[^\]]+\])([*?+]|\{0)?', rx)
+            if m2:
+                ne = 'false' if m2.group(2) in ('*', '?', '{0') else 'true'
+    if ne is None: log.append('C14: EmitIdentifier bare-word test not recognised (empty key: the correspondence run decides)')
+    body += '(* EmitIdentifier: true = the bare-word regex needs at least one character; false = it matches the empty string *)\n'
+    body += 'Definition f_ps_ident_regex_nonempty : option bool := %s.\n' % ('Some ' + ne if ne else 'None')
     emit('Facts_c14.v', body)
